@@ -761,7 +761,9 @@ class MarkdownNormalizer(Renderer):
 
         # First render the alert header (Alert has alert_type attribute)
         alert_type: str = element.alert_type  # pyright: ignore
-        alert_header = f"> [!{alert_type}]\n"
+        # The header line carries the prefix of the enclosing list item or quote, like any first line.
+        alert_header = f"{self._prefix}> [!{alert_type}]\n"
+        self._prefix = self._second_prefix
 
         with self.container("> ", "> "):
             result = self.render_children(element).rstrip("\n")
